@@ -17,3 +17,8 @@ open HmcVerif.C01
 #print axioms HmcVerif.cdrift1_reversible_box
 #print axioms HmcVerif.cdrift1_reversible
 #print axioms boxRefl_in_box
+#print axioms boxed_drift_volume_preserving_1d_partial
+#print axioms boxed_drift_pushforward_1d_partial
+#print axioms boxed_drift_injective_1d
+#print axioms boxed_drift_lands_in_box_1d
+#print axioms HmcVerif.piecewise_measure
